@@ -171,7 +171,14 @@ func Docs(r *vfh.Rand, rounds int) []Doc {
 		for mask := 0; mask < 256; mask++ {
 			pick := func(_, n int) int { return r.Intn(n) }
 			var sb strings.Builder
-			sb.WriteString(stanza("eth0", mask, vfh.Pick(r, headerVariants), pick))
+			first := stanza("eth0", mask, vfh.Pick(r, headerVariants), pick)
+			// the order of the interfaces in the document varies: a monitoring or idle interface
+			// (or another advertising one) may be listed BEFORE eth0 — what is reported for an
+			// interface must not depend on its position among the others
+			lead := r.Chance(2, 5)
+			if !lead {
+				sb.WriteString(first)
+			}
 			switch r.Intn(5) {
 			case 0:
 				sb.WriteString(monitorStanza)
@@ -179,10 +186,17 @@ func Docs(r *vfh.Rand, rounds int) []Doc {
 				sb.WriteString(stanza("eth1", r.Intn(256), vfh.Pick(r, headerVariants), pick))
 			case 2:
 				sb.WriteString(idleStanza)
+				if lead && r.Bool() {
+					sb.WriteString(first)
+					lead = false
+				}
 				sb.WriteString(stanza("br-lan", r.Intn(256), vfh.Pick(r, headerVariants), pick))
 			case 3:
 				sb.WriteString(monitorStanza)
 				sb.WriteString(idleStanza)
+			}
+			if lead {
+				sb.WriteString(first)
 			}
 			docs = append(docs, Doc{Tag: fmt.Sprintf("mask-%02x-%d", mask, round), TOML: sb.String()})
 		}
